@@ -58,6 +58,49 @@ def gen_cases(ctx, n):
     return out
 
 
+def corpus_cases(ctx):
+    """tie (c): the headers of every member of the repository's archives (written by ~20 historical archivers) are parsed by an
+    independent parser (vlib/hdrparse.py) into typed fields; Spec.HeaderEnc.encode must reproduce them byte for byte and the C
+    parser's result on the real bytes must equal normalise(fields)"""
+    import os
+    from vlib import corpus, hdrparse
+    lhv = core.lhv_path()
+    mem = corpus.members(lhv)
+    cache, items = {}, []
+    for m in mem:
+        f = os.path.join(corpus.ARCH_DIR, m["archive"])
+        if f not in cache:
+            cache[f] = open(f, "rb").read()
+        buf = cache[f][m["offset"]:]
+        try:
+            txt, hlen, clen = hdrparse.parse(buf)
+        except Exception as e:
+            continue
+        items.append((m, buf[:hlen], buf[hlen:hlen + 8], txt))
+    enc, _ = core.run_lines_parallel([lhv], ["hdrenc " + t for _, _, _, t in items])
+    out = []
+    for (m, hb, data, txt), e in zip(items, enc):
+        tie = None
+        if e == "bad-op":
+            ctx.dist["corpus-header-not-expressible"] += 1      # e.g. padding after the chain (field `z`), until the spec has it
+            continue
+        if not e.startswith("ok"):
+            tie = "the spec rejects a real header of %s as not well-formed" % m["archive"]
+        elif bytes.fromhex(e.split()[1]) != hb:
+            tie = "Spec.HeaderEnc.encode does not reproduce a real header of %s byte for byte" % m["archive"]
+
+        def sj(c_out, s_out, tie=tie):
+            if tie:
+                return "TIE: " + tie
+            if c_out.startswith(("CRASH", "TIMEOUT")):
+                return "implementation crashed: " + c_out[:150]
+            return None if c_out == s_out else "returned header differs from the fields of a real header"
+        out.append(Case("hdr " + (hb + data).hex(), spec="hdrnorm %s %d" % (txt, len(data)), spec_judge=sj,
+                        tags={"corpus", "level=%d" % hb[20]}, note="nt"))
+    ctx.dist["corpus-headers-reencoded"] += len(out)
+    return out
+
+
 def nontrivial(c):
     return bool(c.note)
 
